@@ -74,6 +74,7 @@ def lineStep (cfg : Cfg) (p : Parser) (line : Bytes) : Except Err Parser :=
   | .request =>
     match splitN1 SP 2 line with
     | [m, u, v] =>
+      if m.isEmpty then .error .httpProtocol else
       match Px.Url.fromBytes cfg.allowedSchemes u with
       | .error e => .error (urlErr e)
       | .ok url =>
@@ -103,7 +104,11 @@ theorem processLine_eq (cfg : Cfg) (p : Parser) (raw : Bytes) :
       split
       · rename_i m u v heq
         simp only [heq]
-        cases Px.Url.fromBytes cfg.allowedSchemes u <;> rfl
+        cases m with
+        | nil => rfl
+        | cons _ _ =>
+          simp only [List.isEmpty_cons, Bool.false_eq_true, if_false]
+          cases Px.Url.fromBytes cfg.allowedSchemes u <;> rfl
       · rename_i hne
         split
         · rename_i m u v heq; exact absurd heq (hne m u v)
@@ -136,11 +141,13 @@ theorem lineStep_spec {cfg : Cfg} {p q : Parser} {line : Bytes} (h : lineStep cf
   · split at h
     · split at h
       · simp at h
-      · simp only [Except.ok.injEq] at h
-        subst h
-        have := fun q0 u0 => (setLineAttributes_framing cfg q0 u0).1
-        exact ⟨rfl, (this _ _).1, (this _ _).2.1, (this _ _).2.2.1, (this _ _).2.2.2.1,
-          (this _ _).2.2.2.2.1, (this _ _).2.2.2.2.2⟩
+      · split at h
+        · simp at h
+        · simp only [Except.ok.injEq] at h
+          subst h
+          have := fun q0 u0 => (setLineAttributes_framing cfg q0 u0).1
+          exact ⟨rfl, (this _ _).1, (this _ _).2.1, (this _ _).2.2.1, (this _ _).2.2.2.1,
+            (this _ _).2.2.2.2.1, (this _ _).2.2.2.2.2⟩
     · simp at h
   · split at h
     · simp only [Except.ok.injEq] at h; subst h; exact ⟨rfl, rfl, rfl, rfl, rfl, rfl, rfl⟩
